@@ -241,6 +241,7 @@ struct Connecting {
     token: ConnectToken,
     start: Instant,
     seq_nr: SeqNr,
+    conn_id: SeqNr,
     requester: ConnectRequest,
 }
 
@@ -269,10 +270,11 @@ impl ConnectingPerAddr {
     }
 
     // TODO: use connection ID instead of sequence number. Or even both.
-    fn pop(&mut self, s: SeqNr) -> Option<Connecting> {
+    // A SYN-ACK acknowledges our SYN's sequence number and carries the connection id we sent in it.
+    fn pop(&mut self, s: SeqNr, conn_id: SeqNr) -> Option<Connecting> {
         for slot in self.slots.iter_mut() {
             if let Some(c) = slot {
-                if c.seq_nr == s {
+                if c.seq_nr == s && c.conn_id == conn_id {
                     self.len -= 1;
                     return slot.take();
                 }
@@ -492,6 +494,7 @@ impl<T: Transport, E: UtpEnvironment> Dispatcher<T, E> {
                 let c = Connecting {
                     token,
                     seq_nr: header.seq_nr,
+                    conn_id: header.connection_id,
                     requester: sender,
                     start: self.env.now(),
                 };
@@ -551,7 +554,10 @@ impl<T: Transport, E: UtpEnvironment> Dispatcher<T, E> {
             }
         };
 
-        let conn = if let Some(conn) = occ.get_mut().pop(msg.header.ack_nr) {
+        let conn = if let Some(conn) = occ
+            .get_mut()
+            .pop(msg.header.ack_nr, msg.header.connection_id)
+        {
             if occ.get_mut().is_empty() {
                 occ.remove();
             }
@@ -559,7 +565,7 @@ impl<T: Transport, E: UtpEnvironment> Dispatcher<T, E> {
         } else {
             debug!(
                 ?msg,
-                "dropping packet. we are connecting to this addr, but ack_nr doens't match"
+                "dropping packet. we are connecting to this addr, but ack_nr or connection id don't match"
             );
             return Ok(());
         };
